@@ -160,21 +160,39 @@ func produce(ctx context.Context, cs *connState, op *opState, ch chan *tx.Event)
 		close(ch)
 	}
 	seq := 0
+	done := ctx.Done()
 	for {
 		select {
-		case <-ctx.Done():
+		case <-done:
+			if op.plan.OnCancel == "ignore" {
+				// a resolver that does not watch its context: it neither closes its channel nor
+				// stops; the operation must end all the same (the stream is idle at that moment)
+				op.ctxDone.Store(true)
+				cs.ev("ctxdone", op.id)
+				done = nil
+				continue
+			}
 			onCancel()
 			return
 		case cmd := <-op.cmd:
 			switch cmd {
 			case "emit":
 				p := fmt.Sprintf("p%d", seq)
+				if done == nil {
+					continue // (ignoring resolver after the cancellation: nobody listens any more)
+				}
 				select {
 				case ch <- &tx.Event{Seq: seq, Payload: &p}:
 					seq++
 					op.consumed.Add(1)
 					cs.ev("consumed", op.id)
 				case <-ctx.Done():
+					if op.plan.OnCancel == "ignore" {
+						op.ctxDone.Store(true)
+						cs.ev("ctxdone", op.id)
+						done = nil
+						continue
+					}
 					onCancel()
 					return
 				}
@@ -201,6 +219,9 @@ func produce(ctx context.Context, cs *connState, op *opState, ch chan *tx.Event)
 				op.ended.Store(true)
 				cs.ev(cmd, op.id)
 				close(ch)
+				if done == nil {
+					return // (the cancellation was seen, and ignored, before)
+				}
 				<-ctx.Done() // the transport cancels the operation context when it is over
 				op.ctxDone.Store(true)
 				cs.ev("ctxdone", op.id)
